@@ -92,7 +92,28 @@ def encView (v : View) : String :=
     let names := if v.isList then names else names.foldr insertStr []
     kind ++ (if v.asNames then "s" else "o") ++ ":" ++ encStrs names
 
-def stepOp (s : RSt) (op : String) : RSt × String :=
+def rtName : String → Str
+  | "none" => "None".toList
+  | "ios" => memberType
+  | _ => "<class 'str'>".toList
+
+def decRead (op : String) : Option RRead :=
+  match op.splitOn ":" with
+  | ["str"] => some .str
+  | ["repr"] => some .repr
+  | ["idx", k] => (decNat k).map .idx
+  | ["eqfresh"] => some .eqFresh
+  | ["data"] => some .data
+  | _ => none
+
+def encRAns : Except Err RAns → String
+  | .ok (.text t) => encStr t
+  | .ok (.bool b) => if b then "T" else "F"
+  | .ok (.member m) => encRender m
+  | .ok (.members l) => Ccp.Drv.Intf.encMembers l
+  | .error e => errName e
+
+def stepOp0 (s : RSt) (op : String) : RSt × String :=
   match op.splitOn ":" with
   | ["list", t] =>
     (s, match decTy t with
@@ -109,9 +130,14 @@ def stepOp (s : RSt) (op : String) : RSt × String :=
       | .error e => xerrName e)
   | _ => let r := Ccp.Drv.Intf.stepOp s.data op; (⟨r.1, s.rev⟩, r.2)
 
-def runOps : RSt → List String → List String
+def stepOp (rt : String) (fresh : List Intf) (s : RSt) (op : String) : RSt × String :=
+  match decRead op with
+  | some r => (s, encRAns (readR (rtName rt) fresh s r))
+  | none => stepOp0 s op
+
+def runOps (rt : String) (fresh : List Intf) : RSt → List String → List String
   | _, [] => []
-  | s, op :: ops => let r := stepOp s op; r.2 :: runOps r.1 ops
+  | s, op :: ops => let r := stepOp rt fresh s op; r.2 :: runOps rt fresh r.1 ops
 
 def handle : List String → String
   | ["obj", s] => (decStr s).elim "bad-request" handleObj
@@ -125,13 +151,13 @@ def handle : List String → String
     | some t, some p => handleSetPfx t p
     | _, _ => "bad-request"
   | ["guard", g] => (decGuard g).elim "bad-request" (fun g => errName (guardErr g))
-  | "range" :: text :: _rt :: rev :: ops =>
+  | "range" :: text :: rt :: rev :: ops =>
     match decStr text with
     | none => "bad-request"
     | some t =>
       match construct (rev == "1") t with
       | .error e => errName e
-      | .ok s => "|".intercalate ("ok" :: runOps s ops)
+      | .ok s => "|".intercalate ("ok" :: runOps rt s.data s ops)
   | _ => "bad-request"
 
 end Ccp.Drv.IntfX
